@@ -45,6 +45,18 @@ Proof.
   - eapply rrun_submitted; exact H.
 Qed.
 
+(* Nothing is visible early either: with a monotone clock, in every reachable
+   state the count exposed by `sync` (and tested by AsyncFd::readable) at an
+   instant `now` not before the last event is exactly the number of accepted,
+   not yet yielded entries whose scheduled instant is <= now. *)
+Theorem c18_visible_count : forall (A : fsapi) d (fs : FS A) es r fs' os now,
+  mono 0 es -> rrun A (new_ring d) fs es = (r, fs', os) -> tlast 0 es <= now ->
+  ready_cq_count r now = N.of_nat (length (filter (due now) (inflight r ++ ready r))).
+Proof.
+  intros A d fs es r fs' os now M H L.
+  eapply visible_count_lemma; [|exact L]. eapply rrun_readydue; [|exact M|exact H]. constructor.
+Qed.
+
 (* The file system changes only through the yielded effects: replaying them on
    the initial state, once each, in yield order, gives the final state and
    exactly the results and buffer contents that were reported; and each such
@@ -181,6 +193,7 @@ Check c18_exactly_once : forall (A : fsapi) d (fs : FS A) es r fs' os,
 
 Print Assumptions c18_exactly_once.
 Print Assumptions c18_not_early.
+Print Assumptions c18_visible_count.
 Print Assumptions c18_same_as_sync.
 Print Assumptions c18_push_full.
 Print Assumptions c18_unsupported_flag.
